@@ -195,3 +195,142 @@ package store
 // cumulative weight of o at the edge = weight below the edge + the edge bin
 //@   hint ASumSplit(contents(o.bins), 0, o.minIndex - o.offset, DCumHi(as(o, *DenseStore), s.minIndex)), ASumZero(contents(o.bins), 0, o.minIndex - o.offset), ASumZero(contents(o.bins), 0, DCumHi(as(o, *DenseStore), s.minIndex)), ASumStep(contents(o.bins), o.minIndex - o.offset, DCumHi(as(o, *DenseStore), s.minIndex)), ASumEmpty(contents(o.bins), 0, 0)
 //@   hint ASumSplit(contents(o.bins), o.minIndex - o.offset, o.maxIndex - o.offset + 1, DCumHi(as(o, *DenseStore), s.minIndex)), ASumZero(contents(o.bins), o.maxIndex - o.offset + 1, DCumHi(as(o, *DenseStore), s.minIndex))
+
+// ================================================================ highest-collapsing store (mirror image)
+// cumulative weight from index k upwards
+//@ fun DCumLo(s *DenseStore, k int) int := max(0, min(len(s.bins), k - s.offset))
+//@ fun DCumUp(s *DenseStore, k int) real := ASum(contents(s.bins), DCumLo(s, k), len(s.bins))
+// Fold(V, e): everything above the edge e is folded into e.
+//@ vfun DFoldHigh(s *DenseStore, e int, k int) real := k > e ? 0.0 : (k == e ? DCumUp(s, e) : DView(s, k))
+//@ vfun DFoldHighOld(s *DenseStore, e int, k int) real := k > e ? 0.0 : (k == e ? old(DCumUp(s, e)) : old(DView(s, k)))
+//@ vfun DFoldHighOf(o *DenseStore, e int, k int) real := k > e ? 0.0 : (k == e ? DCumUp(o, e) : DView(o, k))
+
+//@ pred CHCore(s *CollapsingHighestDenseStore) := DCore(as(s, *DenseStore)) && s.maxNumBins >= 1 && s.maxNumBins <= 2147483647 && len(s.bins) <= s.maxNumBins
+//@ pred CHShape(s *CollapsingHighestDenseStore) := s.isCollapsed ==> (len(s.bins) == s.maxNumBins && s.offset == s.minIndex && s.maxIndex - s.minIndex + 1 == s.maxNumBins)
+//@ pred CHInv(s *CollapsingHighestDenseStore) := CHCore(s) && CHShape(s) && (s.isCollapsed ==> s.count > 0.0) && (s.count == 0.0 ==> DEmptyState(as(s, *DenseStore)) && !s.isCollapsed) && (s.count > 0.0 ==> s.minIndex <= s.maxIndex && DView(as(s, *DenseStore), s.minIndex) > 0.0)
+//@ fun CHEdge(s *CollapsingHighestDenseStore, lo int, hi int) int := min(hi, lo + len(s.bins) - 1)
+
+//@ footprint CollapsingHighestDenseStore(s) := s, arr(s.bins)
+
+//@ func NewCollapsingHighestDenseStore
+//@   serves C05 C15
+//@   requires maxNumBins >= 1 && maxNumBins <= 2147483647
+//@   ensures result != nil && fresh(result) && CHInv(result) && result.count == 0.0 && result.maxNumBins == maxNumBins using ASumEmpty(contents(result.bins), 0, 0)
+
+//@ func CollapsingHighestDenseStore.getNewLength
+//@   serves C05
+//@   requires in32(newMinIndex) && in32(newMaxIndex) && newMinIndex <= newMaxIndex && s.maxNumBins >= 1
+//@   ensures result == min(newMaxIndex - newMinIndex + 1 + 63, s.maxNumBins)
+
+//@ func CollapsingHighestDenseStore.Clear
+//@   serves C05 C15
+//@   requires CHInv(s)
+//@   ensures CHInv(s) && s.count == 0.0 && !s.isCollapsed && s.maxNumBins == old(s.maxNumBins) && arr(s.bins) == old(arr(s.bins))
+//@   ensures forall k int :: DView(as(s, *DenseStore), k) == 0.0
+//@   modifies s
+
+//@ func CollapsingHighestDenseStore.adjust
+//@   serves C05
+//@   requires CHCore(s) && len(s.bins) >= 1 && s.minIndex <= s.maxIndex && DWindowIn(as(s, *DenseStore)) && in32(newMinIndex) && in32(newMaxIndex)
+//@   requires newMinIndex <= s.minIndex && s.maxIndex <= newMaxIndex
+//@   ensures CHCore(s) && DWindowIn(as(s, *DenseStore)) && s.count == old(s.count) && s.maxNumBins == old(s.maxNumBins) && len(s.bins) == old(len(s.bins))
+//@   ensures window: s.minIndex == newMinIndex && s.maxIndex == old(CHEdge(s, newMinIndex, newMaxIndex))
+//@   ensures collapsed: (newMaxIndex - newMinIndex + 1 > len(s.bins) ==> s.isCollapsed && s.offset == s.minIndex) && (newMaxIndex - newMinIndex + 1 <= len(s.bins) ==> s.isCollapsed == old(s.isCollapsed))
+//@   ensures view: forall k int :: DView(as(s, *DenseStore), k) == old(DFoldHigh(as(s, *DenseStore), CHEdge(s, newMinIndex, newMaxIndex), k))
+//@   ensures exact: newMaxIndex - newMinIndex + 1 <= len(s.bins) ==> (forall k int :: DView(as(s, *DenseStore), k) == old(DView(as(s, *DenseStore), k)))
+//@   ensures keep-min: old(DView(as(s, *DenseStore), s.minIndex)) > 0.0 ==> DView(as(s, *DenseStore), min(old(s.minIndex), s.maxIndex)) > 0.0
+//@   ensures alias: arr(s.bins) == old(arr(s.bins)) || fresh(arr(s.bins))
+//@   modifies s, arr(s.bins)
+//@   hint ASumPos(old(contents(s.bins)), 0, old(len(s.bins)), old(s.minIndex - s.offset))
+//@   loop 1 invariant min(newMaxIndex + 1, s.maxIndex + 1) <= i && newMaxIndex + 1 <= i && i <= max(s.maxIndex + 1, newMaxIndex + 1) && n == ASum(contents(s.bins), newMaxIndex + 1 - s.offset, i - s.offset)
+//@   loop 1 decreases s.maxIndex + 1 - i
+// sums of the entry-state array around the edge
+//@   hint ASumWindow(old(contents(s.bins)), 0, old(len(s.bins)), old(s.minIndex - s.offset), old(s.maxIndex - s.offset))
+//@   hint ASumSplit(old(contents(s.bins)), 0, old(DCumLo(as(s, *DenseStore), CHEdge(s, newMinIndex, newMaxIndex))), old(len(s.bins))), ASumZero(old(contents(s.bins)), 0, old(DCumLo(as(s, *DenseStore), CHEdge(s, newMinIndex, newMaxIndex))))
+//@   hint ASumSplit(old(contents(s.bins)), old(DCumLo(as(s, *DenseStore), CHEdge(s, newMinIndex, newMaxIndex))), old(s.maxIndex - s.offset) + 1, old(len(s.bins))), ASumZero(old(contents(s.bins)), old(s.maxIndex - s.offset) + 1, old(len(s.bins)))
+//@   hint ASumStepLow(old(contents(s.bins)), old(DCumLo(as(s, *DenseStore), CHEdge(s, newMinIndex, newMaxIndex))), old(len(s.bins))), ASumStepLow(old(contents(s.bins)), old(DCumLo(as(s, *DenseStore), CHEdge(s, newMinIndex, newMaxIndex))), old(s.maxIndex - s.offset) + 1)
+//@   hint ASumZero(old(contents(s.bins)), old(DCumLo(as(s, *DenseStore), CHEdge(s, newMinIndex, newMaxIndex))) + 1, old(len(s.bins))), ASumEmpty(old(contents(s.bins)), old(len(s.bins)), old(len(s.bins)))
+// the running sum of the collapse loop
+//@   hint ASumEmpty(contents(s.bins), newMaxIndex + 1 - s.offset, newMaxIndex + 1 - s.offset), ASumStep(contents(s.bins), newMaxIndex + 1 - s.offset, i - s.offset), ASumStep(contents(s.bins), newMaxIndex + 1 - s.offset, i - s.offset + 1)
+//@   hint ASumNonneg(contents(s.bins), newMaxIndex + 1 - s.offset, i - s.offset)
+// the current array against the entry array, around the collapsed segment (newMaxIndex, old maxIndex]
+//@   hint ASumSplit(contents(s.bins), 0, newMaxIndex + 1 - s.offset, len(s.bins)), ASumSplit(contents(s.bins), newMaxIndex + 1 - s.offset, old(s.maxIndex - s.offset) + 1, len(s.bins))
+//@   hint ASumSplit(old(contents(s.bins)), 0, newMaxIndex + 1 - s.offset, len(s.bins)), ASumSplit(old(contents(s.bins)), newMaxIndex + 1 - s.offset, old(s.maxIndex - s.offset) + 1, len(s.bins))
+//@   hint ASumShift(old(contents(s.bins)), contents(s.bins), 0, newMaxIndex + 1 - s.offset, 0), ASumShift(old(contents(s.bins)), contents(s.bins), old(s.maxIndex - s.offset) + 1, len(s.bins), 0)
+//@   hint ASumZero(contents(s.bins), newMaxIndex + 1 - s.offset, old(s.maxIndex - s.offset) + 1), ASumShift(old(contents(s.bins)), contents(s.bins), 0, len(s.bins), 0)
+//@   hint ASumUpdate(contents(s.bins), 0, len(s.bins), newMaxIndex - s.offset, s.bins[newMaxIndex - s.offset] + n)
+// the single-bucket case: a fresh zero array with everything in its last bin
+//@   hint ASumUpdate(update(contents(s.bins), len(s.bins) - 1, 0.0), 0, len(s.bins), len(s.bins) - 1, s.count), ASumZero(update(contents(s.bins), len(s.bins) - 1, 0.0), 0, len(s.bins))
+
+//@ func CollapsingHighestDenseStore.extendRange
+//@   serves C05 C15
+//@   requires CHInv(s) && in32(newMinIndex) && in32(newMaxIndex) && newMinIndex <= newMaxIndex
+//@   ensures CHCore(s) && CHShape(s) && DWindowIn(as(s, *DenseStore)) && s.count == old(s.count) && s.maxNumBins == old(s.maxNumBins)
+//@   ensures window: s.minIndex == min(newMinIndex, old(s.minIndex)) && s.maxIndex == min(max(newMaxIndex, old(s.maxIndex)), s.minIndex + len(s.bins) - 1)
+//@   ensures collapsed: s.isCollapsed == (old(s.isCollapsed) || s.maxIndex < max(newMaxIndex, old(s.maxIndex)))
+//@   ensures view: forall k int :: DView(as(s, *DenseStore), k) == DFoldHighOld(as(s, *DenseStore), s.maxIndex, k)
+//@   ensures exact: !s.isCollapsed ==> (forall k int :: DView(as(s, *DenseStore), k) == old(DView(as(s, *DenseStore), k)))
+//@   ensures keep-min: old(s.count) > 0.0 ==> DView(as(s, *DenseStore), min(old(s.minIndex), s.maxIndex)) > 0.0
+//@   ensures alias: arr(s.bins) == old(arr(s.bins)) || fresh(arr(s.bins))
+//@   modifies s, arr(s.bins)
+//@   hint ASumZero(contents(s.bins), 0, len(s.bins))
+//@   hint ASumSplit(contents(s.bins), 0, old(len(s.bins)), len(s.bins)), ASumShift(old(contents(s.bins)), contents(s.bins), 0, old(len(s.bins)), 0), ASumZero(contents(s.bins), old(len(s.bins)), len(s.bins))
+// cumulative weight above the edge: the same in the entry array and in the zero-extended array
+//@   hint ASumSplit(contents(s.bins), min(old(len(s.bins)), DCumLo(as(s, *DenseStore), CHEdge(s, newMinIndex, newMaxIndex))), old(len(s.bins)), len(s.bins))
+//@   hint ASumShift(old(contents(s.bins)), contents(s.bins), min(old(len(s.bins)), DCumLo(as(s, *DenseStore), CHEdge(s, newMinIndex, newMaxIndex))), old(len(s.bins)), 0)
+//@   hint ASumZero(contents(s.bins), DCumLo(as(s, *DenseStore), CHEdge(s, newMinIndex, newMaxIndex)), len(s.bins)), ASumEmpty(old(contents(s.bins)), 0, 0), ASumEmpty(old(contents(s.bins)), old(len(s.bins)), old(len(s.bins)))
+//@   hint ASumZero(contents(s.bins), max(old(len(s.bins)), DCumLo(as(s, *DenseStore), CHEdge(s, newMinIndex, newMaxIndex))), len(s.bins))
+// the range fits: the cumulative weight from the new maximum upwards is the weight of that bin
+//@   hint ASumZero(old(contents(s.bins)), old(DCumLo(as(s, *DenseStore), max(newMaxIndex, s.maxIndex))) + 1, old(len(s.bins))), ASumStepLow(old(contents(s.bins)), old(DCumLo(as(s, *DenseStore), max(newMaxIndex, s.maxIndex))), old(len(s.bins)))
+
+//@ func CollapsingHighestDenseStore.normalize
+//@   serves C05
+//@   requires CHInv(s) && in32(index)
+//@   ensures CHCore(s) && CHShape(s) && DWindowIn(as(s, *DenseStore)) && s.count == old(s.count) && s.maxNumBins == old(s.maxNumBins)
+//@   ensures window: s.minIndex == min(index, old(s.minIndex)) && s.maxIndex == min(max(index, old(s.maxIndex)), s.minIndex + len(s.bins) - 1) && s.minIndex <= s.maxIndex
+//@   ensures collapsed: s.isCollapsed == (old(s.isCollapsed) || s.maxIndex < max(index, old(s.maxIndex)))
+//@   ensures slot: result == min(index, s.maxIndex) - s.offset && 0 <= result && result < len(s.bins)
+//@   ensures view: forall k int :: DView(as(s, *DenseStore), k) == DFoldHighOld(as(s, *DenseStore), s.maxIndex, k)
+//@   ensures exact: !s.isCollapsed ==> (forall k int :: DView(as(s, *DenseStore), k) == old(DView(as(s, *DenseStore), k)))
+//@   ensures keep-min: old(s.count) > 0.0 ==> DView(as(s, *DenseStore), min(old(s.minIndex), s.maxIndex)) > 0.0
+//@   ensures alias: arr(s.bins) == old(arr(s.bins)) || fresh(arr(s.bins))
+//@   modifies s, arr(s.bins)
+//@   hint ASumZero(old(contents(s.bins)), old(DCumLo(as(s, *DenseStore), s.maxIndex)) + 1, old(len(s.bins))), ASumStepLow(old(contents(s.bins)), old(DCumLo(as(s, *DenseStore), s.maxIndex)), old(len(s.bins))), ASumEmpty(old(contents(s.bins)), old(len(s.bins)), old(len(s.bins)))
+
+//@ func CollapsingHighestDenseStore.AddWithCount
+//@   serves C05
+//@   requires CHInv(s) && in32(index) && count >= 0.0
+//@   ensures CHInv(s) && s.count == old(s.count) + count && s.maxNumBins == old(s.maxNumBins)
+//@   ensures bounded: len(s.bins) <= s.maxNumBins && (s.count > 0.0 ==> s.maxIndex - s.minIndex + 1 <= s.maxNumBins)
+//@   ensures edge: count > 0.0 ==> s.minIndex == min(index, old(s.minIndex)) && s.maxIndex == min(max(index, old(s.maxIndex)), s.minIndex + len(s.bins) - 1)
+//@   ensures view: count > 0.0 ==> (forall k int :: DView(as(s, *DenseStore), k) == DFoldHighOld(as(s, *DenseStore), s.maxIndex, k) + (k == min(index, s.maxIndex) ? count : 0.0))
+//@   ensures noop: count == 0.0 ==> (forall k int :: DView(as(s, *DenseStore), k) == old(DView(as(s, *DenseStore), k)))
+//@   ensures alias: arr(s.bins) == old(arr(s.bins)) || fresh(arr(s.bins))
+//@   modifies s, arr(s.bins)
+//@   hint ASumUpdate(contents(s.bins), 0, len(s.bins), arrayIndex, s.bins[arrayIndex] + count)
+
+//@ func CollapsingHighestDenseStore.Add
+//@   serves C05
+//@   requires CHInv(s) && in32(index)
+//@   ensures CHInv(s) && s.count == old(s.count) + 1.0 && s.maxNumBins == old(s.maxNumBins)
+//@   ensures view: forall k int :: DView(as(s, *DenseStore), k) == DFoldHighOld(as(s, *DenseStore), s.maxIndex, k) + (k == min(index, s.maxIndex) ? 1.0 : 0.0)
+//@   ensures alias: arr(s.bins) == old(arr(s.bins)) || fresh(arr(s.bins))
+//@   modifies s, arr(s.bins)
+
+//@ func CollapsingHighestDenseStore.AddBin
+//@   serves C05
+//@   requires CHInv(s) && in32(bin.index) && bin.count >= 0.0
+//@   ensures CHInv(s) && s.count == old(s.count) + bin.count && s.maxNumBins == old(s.maxNumBins)
+//@   ensures view: bin.count > 0.0 ==> (forall k int :: DView(as(s, *DenseStore), k) == DFoldHighOld(as(s, *DenseStore), s.maxIndex, k) + (k == min(bin.index, s.maxIndex) ? bin.count : 0.0))
+//@   ensures alias: arr(s.bins) == old(arr(s.bins)) || fresh(arr(s.bins))
+//@   modifies s, arr(s.bins)
+
+//@ func CollapsingHighestDenseStore.Copy
+//@   serves C05 C14
+//@   requires CHInv(s)
+//@   ensures result != nil && fresh(result) && is(result, *CollapsingHighestDenseStore) && fresh(arr(as(result, *CollapsingHighestDenseStore).bins))
+//@   ensures CHInv(as(result, *CollapsingHighestDenseStore)) && as(result, *CollapsingHighestDenseStore).count == s.count && as(result, *CollapsingHighestDenseStore).maxNumBins == s.maxNumBins && as(result, *CollapsingHighestDenseStore).isCollapsed == s.isCollapsed
+//@   ensures as(result, *CollapsingHighestDenseStore).minIndex == s.minIndex && as(result, *CollapsingHighestDenseStore).maxIndex == s.maxIndex
+//@   ensures view: forall k int :: DView(as(result, *DenseStore), k) == DView(as(s, *DenseStore), k)
+//@   hint ASumShift(contents(s.bins), contents(bins), 0, len(s.bins), 0)
+
